@@ -292,7 +292,7 @@ def words_of(body, call_sym, edge_sym=None, stmt_sym=None, start=0, stops=(), ke
             if l_ in flags:
                 continue
             nd_ = [d_ for d_ in ds_ if d_[0] in ("assign", "call")]
-            if len(nd_) < 2 or len(nd_) > 6 or len({d_[1] for d_ in nd_}) < 2 or len(nd_) != len([d_ for d_ in ds_ if d_[0] != "partial"]):
+            if len(nd_) < 2 or len(nd_) > 40 or len({d_[1] for d_ in nd_}) < 2 or len(nd_) != len([d_ for d_ in ds_ if d_[0] != "partial"]):
                 continue
             if any(d_[1] in cyc_ for d_ in nd_):
                 continue
@@ -322,7 +322,7 @@ def words_of(body, call_sym, edge_sym=None, stmt_sym=None, start=0, stops=(), ke
         n_ = 1
         for l_ in locs:
             n_ *= len(multi[l_])
-        if n_ > 24:
+        if n_ > 64:
             return x0
         import itertools
         table = []
@@ -1810,3 +1810,92 @@ def check_optional_ms_getter(ob, prog, getter, field, key=None):
         ret = o.of_local(0)
         ob.require(any(x == ("fnptr", "core::time::Duration::from_millis") for x in walk(ret)) and term_has_call(ret, "Option::map"), f"{key}/payload",
                    f"{getter} returns {show(ret)[:80]}", b.path)
+
+
+# ---------------------------------------------------------------------------
+# closed integer -> enum conversion tables (`fn new(code: u16) -> Result<Enum>`), however they are written
+
+
+def int_enum_table(prog, body, enum_path, discr):
+    """Evaluate a conversion `fn(code) -> Result<Enum, _>` as a table: for every discriminant, every other constant the
+    function compares with, and one fresh value, which variants / Err can be returned. The function may be a `match` on the
+    integer, `match` with guards, an `if code == K` chain, `if code != K { return Err }`, with literals, named constants,
+    `Variant as u16` casts or `Variant.to_u16()` calls. Returns {code: set(outcomes)}, outcome = variant name | 'Err' | '?..'."""
+    consts = set()
+
+    def const_val(t):
+        v = int_of(t)
+        if v is not None:
+            return v
+        s = strip_identity(t)
+        if s[0] == "call" and s[2] and len(s[2]) == 1:
+            a = strip_identity(s[2][0])
+            if a[0] == "agg" and str(a[2]).startswith(enum_path + "::") and a[2].split("::")[-1] in discr and s[1].split("::")[-1] in ("to_u16", "to_u8", "to_u32", "into", "from"):
+                return discr[a[2].split("::")[-1]]
+        if s[0] == "discr":
+            a = strip_identity(s[1])
+            if a[0] == "agg" and a[2].split("::")[-1] in discr:
+                return discr[a[2].split("::")[-1]]
+        return None
+
+    def edge_sym(a, b, subj, labels, o):
+        if is_param(strip_identity(subj)):
+            arms = [v for v, _ in body.blocks[a]["t"]["arms"]]
+            consts.update(arms)
+            if labels and labels != {"other"}:
+                return ("t", "in", tuple(sorted(int(x) for x in labels if x != "other")))
+            return ("t", "notin", tuple(sorted(arms)))
+        n = normalize_cmp(subj)
+        if n is not None and labels in ({"true"}, {"false"}):
+            neg, op, x, y = n
+            px, py = is_param(strip_identity(x)), is_param(strip_identity(y))
+            k = const_val(y) if px else const_val(x) if py else None
+            if (px or py) and k is not None and op in ("eq", "ne", "lt", "le", "gt", "ge"):
+                if py:
+                    op = {"lt": "gt", "le": "ge", "gt": "lt", "ge": "le"}.get(op, op)
+                consts.add(k)
+                return ("t", op, k, (labels == {"true"}) != neg)
+        if in_ignored_expansion(body, a):
+            return []
+        return "?cond(" + show(subj)[:40] + ")"
+
+    def stmt_sym(bb, s, o):
+        if s["lhs"] == 0 and s["rv"]["k"] == "agg":
+            t = o.of_rvalue(s["rv"])
+            if str(t[2]).endswith("Result::Err"):
+                return "ret=Err"
+            if str(t[2]).endswith("Result::Ok"):
+                v = strip_identity(t[3][0])
+                if v[0] == "agg" and str(v[2]).startswith(enum_path + "::"):
+                    return "ret=" + v[2].split("::")[-1]
+                return "ret=?" + show(v)[:30]
+        return None
+
+    def call_sym(c, o):
+        if c.dest == 0 and name_matches(c.fn, "FromResidual::from_residual"):
+            return "ret=Err"
+        return None
+    ws = words_of(body, call_sym, edge_sym, stmt_sym, keep_end=False)
+    codes = set(discr.values()) | consts
+    fresh = max(codes | {0}) + 1000003
+    codes.add(fresh)
+
+    def holds(t, code):
+        if t[1] == "in":
+            return code in t[2]
+        if t[1] == "notin":
+            return code not in t[2]
+        val = {"eq": code == t[2], "ne": code != t[2], "lt": code < t[2], "le": code <= t[2], "gt": code > t[2], "ge": code >= t[2]}[t[1]]
+        return val == t[3]
+    table = {}
+    for code in codes:
+        outs = set()
+        for w in ws:
+            tests = [x for x in w if isinstance(x, tuple) and x and x[0] == "t"]
+            if not all(holds(t, code) for t in tests):
+                continue
+            rets = [x for x in w if isinstance(x, str) and x.startswith("ret=")]
+            odd = [x for x in w if isinstance(x, str) and x.startswith("?")]
+            outs.add("?" + ";".join(odd) if odd else (rets[-1][4:] if rets else "?no-return"))
+        table[code] = outs
+    return table, fresh
